@@ -34,22 +34,27 @@ func ParseSipURI(uri string) (*SIPURI, error) {
 	// find '?'
 	pos := strings.IndexByte(s, '?')
 	if pos != -1 {
-		parseUriHeader(s[pos+1:], sipUri)
+		if err := parseUriHeader(s[pos+1:], sipUri); err != nil {
+			return nil, err
+		}
 		s = s[0:pos]
 	}
 	// find ';'
 	pos = strings.IndexByte(s, ';')
 	if pos != -1 {
-		parseUriParameters(s[pos+1:], sipUri)
+		if err := parseUriParameters(s[pos+1:], sipUri); err != nil {
+			return nil, err
+		}
 		s = s[0:pos]
 	}
 	//find '@'
 	pos = strings.IndexByte(s, '@')
 	if pos != -1 {
 		parseUserInfo(s[0:pos], sipUri)
-		parseHostPort(s[pos+1:], sipUri)
-	} else {
-		parseHostPort(s, sipUri)
+		s = s[pos+1:]
+	}
+	if err := parseHostPort(s, sipUri); err != nil {
+		return nil, err
 	}
 	return sipUri, nil
 }
@@ -64,26 +69,31 @@ func parseUserInfo(s string, sipUri *SIPURI) {
 	}
 }
 
-func parseHostPort(s string, sipUri *SIPURI) {
+func parseHostPort(s string, sipUri *SIPURI) error {
 	pos := strings.IndexByte(s, ':')
 	if pos == -1 {
 		sipUri.Host = s
 		sipUri.port = 0
 	} else {
+		port, err := strconv.Atoi(s[pos+1:])
+		if err != nil {
+			return err
+		}
 		sipUri.Host = s[0:pos]
-		sipUri.port, _ = strconv.Atoi(s[pos+1:])
+		sipUri.port = port
 	}
+	return nil
 }
 
 func parseUriParameters(s string, sipUri *SIPURI) error {
 	for _, param := range strings.Split(s, ";") {
 		pos := strings.IndexByte(param, '=')
 		if pos == -1 {
-			if param == "lr" {
-				sipUri.Parameters = append(sipUri.Parameters, KeyValue{Key: "lr", Value: ""})
-			} else {
+			if len(param) <= 0 {
 				return errors.New("invalid parameter format")
 			}
+			// a parameter without value, like lr
+			sipUri.Parameters = append(sipUri.Parameters, KeyValue{Key: param, Value: ""})
 		} else {
 			name := param[0:pos]
 			value := param[pos+1:]
